@@ -27,6 +27,11 @@ PREF = {
        "than all the ones listed above. Before choosing, list for yourself the inputs, options, entry points, histories, environments and "
        "magnitudes the property names or implies, and pick the corner a test author would be LEAST likely to have thought of. It must still be "
        "realistic and keep all 81 tests passing."),
+ 'h': ("No preferred kind this time: ANY realistic bug that breaks the property, as long as it is in a different place and of a different nature "
+       "than all the ones listed above. Before choosing, list for yourself the inputs, options, entry points, histories, environments and "
+       "magnitudes the property names or implies, and the helper functions / base classes / third-party behaviour (pysam, numpy, pandas, gzip) "
+       "the anchored code relies on; pick the corner a test author would be LEAST likely to have thought of. It must still be realistic and "
+       "keep all 81 tests passing."),
 }
 props = [json.loads(l) for l in open(os.path.join(V, 'properties.jsonl'))]
 tmpl = open('/tmp/agent_prompt_template.txt').read() if os.path.exists('/tmp/agent_prompt_template.txt') else None
